@@ -325,7 +325,21 @@ func unmarshalSourceFile(source string) (*sourceFile, error) {
 	if len(file.RelPath) < 1 {
 		return nil, simpleTrzszError("Invalid source file: %s", source)
 	}
+	for _, name := range file.RelPath {
+		if !isSafeFileName(name) {
+			return nil, simpleTrzszError("Invalid file name in source file: %s", source)
+		}
+	}
 	return &file, nil
+}
+
+// isSafeFileName reports whether a name received from the peer is a single path element that
+// cannot lead outside the directory it is joined to.
+func isSafeFileName(name string) bool {
+	if name == "" || name == "." || name == ".." {
+		return false
+	}
+	return !strings.ContainsRune(name, '/') && !strings.ContainsRune(name, os.PathSeparator)
 }
 
 type targetFile struct {
